@@ -48,6 +48,10 @@ def conversions(tree):
 
 def check_case(case, ctx):
     tree, tseed = case['tree'], case.get('tseed', 0)
+    if case.get('ref'):
+        tree = dsl.with_reference(tree, case['ref']) or tree
+        if tree is not case['tree']:
+            ctx.count('with_backreference_or_conditional')
     o = treecheck.evaluate(tree, tseed, extra_texts=case.get('xt', ()))
     ctx.count(f'outcome:{o.kind.split(":")[0]}')
     if o.kind in OWNED:
@@ -106,6 +110,7 @@ def strategy(spec, ctx):
         'tree': st.one_of(dsl.tree_strategy(feats, max_leaves=spec.get('max_leaves', 5), leaf=leaf()),
                           chain_strategy().map(dsl.uniquify_names)),
         'tseed': st.integers(0, 2 ** 16),
+        'ref': dsl.refspec_strategy(['cat', 'alt', 'q', 'grp', 'meta', 'strarg']),
     })
 
 
